@@ -19,6 +19,9 @@ import (
 )
 
 func init() {
+	mutant(&Mutant{Name: "c17-colour-keyword-for-translucent-hex", Property: "C17", File: "css/css.go",
+		Old: "\t\tif len(data) == 9 && data[7] == data[8] {\n\t\t\tif data[7] == 'f' {\n\t\t\t\tdata = data[:7]\n", New: "\t\tif len(data) == 9 && data[7] == data[8] {\n\t\t\tif data[7] != '0' {\n\t\t\t\tdata = data[:7]\n",
+		Rule: "R17.colorkey", Construct: "css.minifyColor/ShortenColorHex look-up"})
 	mutant(&Mutant{Name: "c17-zero-angle-loses-unit", Property: "C17", File: "css/table.go",
 		Old: "\t\"vmax\": true,\n}", New: "\t\"vmax\": true,\n\t\"deg\":  true,\n}",
 		Rule: "R17.units", Construct: "css.optionalZeroDimension[deg]"})
@@ -174,6 +177,7 @@ func runC17(c *Ctx) {
 	c.ruleHashFiles()
 	c.ruleEntities()
 	c.ruleColors()
+	c.ruleColorKey()
 	c.ruleUnits()
 	c.ruleHTMLTraits()
 	c.ruleMimeAndSVG()
@@ -765,4 +769,103 @@ func (c *Ctx) lexerRawTags(rule string) map[string]bool {
 		return nil
 	}
 	return out
+}
+
+// R17.colorkey: the hex→keyword table is consulted with the whole colour.
+func (c *Ctx) ruleColorKey() {
+	const rule = "R17.colorkey"
+	c.R.Rule(rule, "the keys of css.ShortenColorHex are opaque colours. Every look-up `ShortenColorHex[string(v)]` in packages css and svg is made with the complete notation: an assignment that shortens v to a prefix of itself (`v = v[:7]`, also as part of a tuple assignment) and can reach the look-up is dominated by a test of the bytes that are cut off against 'f' — the alpha channel is dropped only when it is opaque. Splitting the alpha channel off first and looking the rest up maps `#ff000080` to `red`")
+	n := 0
+	for _, rel := range []string{"css", "svg"} {
+		pk := c.P.Pkg(rel)
+		if pk == nil {
+			continue
+		}
+		info := pk.TypesInfo
+		for _, fd := range load.FuncDecls(pk) {
+			if fd.Body == nil {
+				continue
+			}
+			var g *flow.Graph
+			ast.Inspect(fd.Body, func(x ast.Node) bool {
+				ie, ok := x.(*ast.IndexExpr)
+				if !ok || !strings.HasSuffix(nospace(str(ie.X)), "ShortenColorHex") {
+					return true
+				}
+				conv, ok := ast.Unparen(ie.Index).(*ast.CallExpr)
+				if !ok || len(conv.Args) != 1 {
+					return true
+				}
+				id, ok := ast.Unparen(conv.Args[0]).(*ast.Ident)
+				if !ok {
+					return true
+				}
+				key := info.Uses[id]
+				if key == nil {
+					return true
+				}
+				n++
+				if g == nil {
+					g = c.graph(pk, fd)
+				}
+				lookup := g.NodeOf(ie)
+				var bad []string
+				for _, q := range g.Nodes {
+					as, ok := q.Stmt.(*ast.AssignStmt)
+					if !ok || q.Kind != flow.KStmt || len(as.Lhs) != len(as.Rhs) {
+						continue
+					}
+					for i, l := range as.Lhs {
+						lid, ok := l.(*ast.Ident)
+						if !ok || (info.Uses[lid] != key && info.Defs[lid] != key) {
+							continue
+						}
+						se, ok := ast.Unparen(as.Rhs[i]).(*ast.SliceExpr)
+						if !ok || se.High == nil {
+							continue
+						}
+						sid, ok := ast.Unparen(se.X).(*ast.Ident)
+						if !ok || info.Uses[sid] != key {
+							continue
+						}
+						// can it reach the look-up?
+						// can it reach the look-up (before the variable is assigned again)?
+						qq := q
+						if lookup != nil && g.Path(flow.Search{From: []*flow.Node{q}, Goal: func(z *flow.Node) bool { return z == lookup }, Avoid: func(z *flow.Node) bool {
+							if z == qq || z == lookup {
+								return false
+							}
+							if as2, ok := z.Stmt.(*ast.AssignStmt); ok && z.Kind == flow.KStmt {
+								for _, l2 := range as2.Lhs {
+									if id2, ok := l2.(*ast.Ident); ok && (info.Uses[id2] == key || info.Defs[id2] == key) {
+										return true
+									}
+								}
+							}
+							return false
+						}}) == nil {
+							continue
+						}
+						opaque := false
+						for _, f := range g.DomFacts(q) {
+							if !f.Value || f.Test.Kind != flow.KCond {
+								continue
+							}
+							chars, _, _ := c.constsIn(pk, f.Test.Expr)
+							if chars['f'] || chars['F'] {
+								opaque = true
+							}
+						}
+						if !opaque {
+							bad = append(bad, stmtText(as)+" at "+c.pos(as))
+						}
+					}
+				}
+				c.R.Check(len(bad) == 0, rule, fmt.Sprintf("%s.%s/ShortenColorHex look-up#%d uses the whole colour", pk.Name, load.FuncName(fd), n), c.pos(ie), "the key is shortened only when the alpha channel is ff",
+					"the key of the look-up is a prefix of the colour whose cut-off digits were not tested to be `f`: "+strings.Join(bad, "; ")+" — a translucent colour is replaced by the keyword of its opaque counterpart (`#ff000080` → `red`)")
+				return true
+			})
+		}
+	}
+	c.R.Floor(rule, "look-ups in ShortenColorHex", n, 2)
 }
